@@ -69,11 +69,12 @@ impl Vm {
         cache_id_emitter.invoke_count(),
       );
 
-      if module.id() < self.inline_cache.len() {
-        self.inline_cache[module.id()] = cache;
-      } else {
-        self.inline_cache.push(cache);
+      // the caches are indexed by module id: a module whose compilation failed took an
+      // id without leaving a cache, so pad up to this module's slot instead of appending
+      while self.inline_cache.len() <= module.id() {
+        self.inline_cache.push(InlineCache::new(0, 0));
       }
+      self.inline_cache[module.id()] = cache;
       self.manage_obj(fun)
     })
   }
